@@ -122,9 +122,8 @@ template<int D> void observe(view_t<D> const& v, std::ostream& os) {
 	path("elems_idx", [&](auto& x) { auto&& es = v.elements(); for(multi::size_t k = 0; k != es.size(); ++k) { x.push_back(cellno(es[k])); } });
 	path("elems_iter", [&](auto& x) { for(auto&& e : v.elements()) { x.push_back(cellno(e)); } });
 	path("front_back", [&](auto& x) { x = br; if(cellno(v.elements().front()) != br.front()) { x.front() = cellno(v.elements().front()); } if(cellno(v.elements().back()) != br.back()) { x.back() = cellno(v.elements().back()); } });
-#ifdef VERIF_ELEMENTS_AT
+	// elements_at(k): the k-th element in canonical order (a positional access path, like elements()[k])
 	path("elements_at", [&](auto& x) { for(long k = 0; k != ne; ++k) { x.push_back(cellno(v.elements_at(k))); } });
-#endif
 	os << '}';
 	{
 		long es = -1;
